@@ -250,11 +250,17 @@ func c28ScribbleMD(md MD) {
 	}
 }
 
-// c28CloneMD is the harness's own deep copy (deliberately not MD.Copy).
+// c28CloneMD is the harness's own deep copy (deliberately not MD.Copy). It
+// preserves the CAPACITY of every value slice: an MD grown with Append/Pairs
+// has spare capacity (3 values: len 3, cap 4), and code that append()s onto a
+// stored slice only aliases it when there is room, so the contexts must see
+// the same len/cap a real caller would hand over.
 func c28CloneMD(md MD) MD {
 	out := make(MD, len(md))
 	for k, v := range md {
-		out[k] = append(make([]string, 0, len(v)), v...)
+		c := make([]string, len(v), cap(v))
+		copy(c, v)
+		out[k] = c
 	}
 	return out
 }
@@ -425,7 +431,42 @@ func (w *c28World) obsCtx(name string, c *c28CtxRec) {
 	}
 }
 
+// obsSiblings: results handed out for one context must not change when
+// another context derived from the same parent is looked up afterwards (no
+// caller mutation involved).
+func (w *c28World) obsSiblings() {
+	if w.cur == nil || w.sav == nil || w.sav == w.cur {
+		return
+	}
+	type res struct {
+		q    string
+		v    []string
+		want []string
+	}
+	var first []res
+	for _, q := range c28Queries {
+		first = append(first, res{q, ValueFromOutgoingContext(w.cur.ctx, q), w.cur.out.get(q)})
+	}
+	fo, _ := FromOutgoingContext(w.cur.ctx)
+	for _, q := range c28Queries {
+		ValueFromOutgoingContext(w.sav.ctx, q)
+		ValueFromIncomingContext(w.sav.ctx, q)
+	}
+	FromOutgoingContext(w.sav.ctx)
+	for _, r := range first {
+		if !c28SameStrings(r.v, r.want) {
+			w.fail("value-out-sibling-overwrite", "the slice ValueFromOutgoingContext(ctx,%q) returned reads %q after the same lookups on saved-ctx (a sibling context), reference %q", r.q, r.v, r.want)
+		}
+	}
+	if w.cur.out != nil {
+		if got, want := c28Canon(fo, true), w.cur.out.canon(); got != want {
+			w.fail("from-out-sibling-overwrite", "the MD FromOutgoingContext(ctx) returned reads %s after reading saved-ctx (a sibling context), reference %s", got, want)
+		}
+	}
+}
+
 func (w *c28World) observe() {
+	w.obsSiblings()
 	w.obsMD("m", w.m, w.rm)
 	w.obsMD("n", w.n, w.rn)
 	w.obsCtx("ctx", w.cur)
@@ -595,11 +636,18 @@ func c28OpAppendOut(name string, kv ...string) c28Op {
 	}}
 }
 
-func c28RawOps() (newOutRaw, newInRaw c28Op) {
+func c28RawOps() (newOutRaw, newOutRawSpare, newInRaw c28Op) {
 	// User-built MDs with a mixed-case key (one key per case class: colliding
 	// raw keys are outside the API contract and map-order dependent).
 	newOutRaw = c28Op{"ctx=NewOutgoingContext(MD{K:[1 2]})", func(w *c28World) bool {
 		ctx := NewOutgoingContext(w.cur.ctx, MD{"K": {"1", "2"}})
+		w.cur = &c28CtxRec{ctx: ctx, out: c28RefKV("K", "1", "K", "2"), in: w.cur.in}
+		return false
+	}}
+	// the same with room to grow in the value slice (len 2, cap 4), as left
+	// behind by append(): appending onto it in place would alias the context
+	newOutRawSpare = c28Op{"ctx=NewOutgoingContext(MD{K:[1 2] cap4})", func(w *c28World) bool {
+		ctx := NewOutgoingContext(w.cur.ctx, MD{"K": append(make([]string, 0, 4), "1", "2")})
 		w.cur = &c28CtxRec{ctx: ctx, out: c28RefKV("K", "1", "K", "2"), in: w.cur.in}
 		return false
 	}}
@@ -647,7 +695,7 @@ func c28MDOps() []c28Op {
 }
 
 func c28CtxOps() []c28Op {
-	newOutRaw, newInRaw := c28RawOps()
+	newOutRaw, newOutRawSpare, newInRaw := c28RawOps()
 	return []c28Op{
 		c28OpAppendOut("ctx=AppendToOutgoingContext(k,1)", "k", "1"),
 		c28OpAppendOut("ctx=AppendToOutgoingContext(K,2)", "K", "2"),
@@ -664,6 +712,7 @@ func c28CtxOps() []c28Op {
 			return false
 		}},
 		newOutRaw,
+		newOutRawSpare,
 		{"ctx=NewIncomingContext(m)", func(w *c28World) bool {
 			if w.m == nil {
 				return true
@@ -758,7 +807,7 @@ func TestVerif_C28_Metadata(t *testing.T) {
 	r := vk.Start(t, "c28_metadata", "model_checking", P)
 	defer r.Finish()
 	defer debug.SetGCPercent(debug.SetGCPercent(800)) // allocation-heavy, memory is plentiful
-	r.Rule(P, "breadth-first over ALL operation sequences up to the depth bound from three start states, each run on fresh real MDs/contexts next to a reference ordered multimap (a flat list of lower-cased key/value pairs); keys {k,K,x}, values {1,2}. Scenario md: New/Pairs/Set/Append/Delete/Copy/Join on two caller-owned MDs. Scenario ctx: NewOutgoingContext/AppendToOutgoingContext/NewIncomingContext (API-built and raw mixed-case MDs), FromOutgoingContext/FromIncomingContext loaded into a register and mutated, two context registers (save/swap) so that sibling contexts derived from one parent coexist. Scenario ctx-branch: same alphabet from a context that already carries a base MD and three appends. After every step (quick tier: after the last step of every explored history, which still observes every reached state) every read API (From*, ValueFrom* over queries {k,K,x,X,q}, fromOutgoingContextRaw, Get, Len, Copy) is compared with the reference, then everything returned is mutated in place and all is read again. A state = canonical private contents (rawMD.md, rawMD.added incl. len/cap, incoming MD, value-slice capacities, sharing of the added array) + reference multimaps; distinct states are the non-trivial cases")
+	r.Rule(P, "breadth-first over ALL operation sequences up to the depth bound from three start states, each run on fresh real MDs/contexts next to a reference ordered multimap (a flat list of lower-cased key/value pairs); keys {k,K,x}, values {1,2}. Scenario md: New/Pairs/Set/Append/Delete/Copy/Join on two caller-owned MDs. Scenario ctx: NewOutgoingContext/AppendToOutgoingContext/NewIncomingContext (API-built MDs handed over with the len/cap the API left them with, raw mixed-case MDs with and without spare capacity in the value slice), FromOutgoingContext/FromIncomingContext loaded into a register and mutated, two context registers (save/swap) so that sibling contexts derived from one parent coexist. Scenario ctx-branch: same alphabet from a context that already carries a base MD (value slice with spare capacity) and three appends. Results handed out for one context are re-checked after the sibling context has been read. After every step (quick tier: after the last step of every explored history, which still observes every reached state) every read API (From*, ValueFrom* over queries {k,K,x,X,q}, fromOutgoingContextRaw, Get, Len, Copy) is compared with the reference, then everything returned is mutated in place and all is read again. A state = canonical private contents (rawMD.md, rawMD.added incl. len/cap, incoming MD, value-slice capacities, sharing of the added array) + reference multimaps; distinct states are the non-trivial cases")
 	r.Assume(P, "MDs handed to NewOutgoingContext/NewIncomingContext are never touched again by the harness (documented precondition); user-built MDs with two keys differing only in case are excluded (map-order dependent by design); MD.Get/Set/Append/Delete are only applied to MDs whose stored keys are lower-case (built by the API)")
 	r.Assume(P, "ValueFromOutgoingContext/ValueFromIncomingContext results are treated as caller-owned copies like the FromX results; no operation may grow an MD or context beyond the stated number of values (such ops are skipped)")
 
@@ -771,7 +820,9 @@ func TestVerif_C28_Metadata(t *testing.T) {
 	}
 	branchInit := func() *c28World {
 		w := ctxInit()
-		ctx := NewOutgoingContext(context.Background(), Pairs("k", "1"))
+		base := Pairs("k", "1")
+		base["k"] = append(make([]string, 0, 4), base["k"]...) // len 1, cap 4: room for in-place appends
+		ctx := NewOutgoingContext(context.Background(), base)
 		ctx = AppendToOutgoingContext(ctx, "K", "2")
 		ctx = AppendToOutgoingContext(ctx, "x", "1")
 		ctx = AppendToOutgoingContext(ctx, "k", "1")
